@@ -134,7 +134,7 @@ def census(ctx, outs, typelevel=None):
                         ub = z.ub(P_lin_atom(b)) if not is_const(b) else b[1]
                         bits = TY.get(a, TY.get(b, (64, False)))[0]
                         done = ua is not None and ub is not None and ua * ub <= (1 << bits) - 1
-                if not done and cond[0] == "ovf" and cond[1] == "Add" and _sum_of_lengths(cond[2], cond[3]):
+                if not done and cond[0] == "ovf" and cond[1] == "Add" and _sum_of_lengths(cond[2], cond[3], ctx):
                     done = True
                     ctx.assume("no byte sequence is longer than 2^61 bytes (the virtual address space of every 64-bit target is at most "
                                "2^57 bytes): a sum of up to four sequence lengths and a constant below 2^32 does not overflow usize")
@@ -247,8 +247,10 @@ def census(ctx, outs, typelevel=None):
     return {s.key: s for s in sites.values()}
 
 
-def _sum_of_lengths(a, b):
-    """a + b is a sum of at most four `len(..)` terms (64-bit) and constants below 2^32"""
+def _sum_of_lengths(a, b, ctx=None):
+    """a + b is a sum of at most four byte-count terms (64-bit) and constants below 2^32; a byte-count term is `len(..)` of a
+    sequence, or `iter.map(f).sum::<usize>()` where f itself returns such a sum (the bytes of every listed object plus a
+    small constant each)"""
     lens = consts = 0
     work = [a, b]
     while work:
@@ -259,9 +261,30 @@ def _sum_of_lengths(a, b):
             work += [x[2], x[3]]
         elif isinstance(x, tuple) and x and x[0] == "len" and TY.get(x, (64, False))[0] == 64:
             lens += 1
+        elif ctx is not None and _is_mapped_length_sum(ctx, x):
+            lens += 1
         else:
             return False
     return 1 <= lens <= 4 and consts < (1 << 32)
+
+
+def _is_mapped_length_sum(ctx, x):
+    if not (isinstance(x, tuple) and x and x[0] == "call" and x[1].endswith("Iterator::sum") and x[2]):
+        return False
+    inner = x[2][0]
+    while isinstance(inner, tuple) and inner and inner[0] in ("&", "refconst"):
+        inner = inner[1]
+    if not (isinstance(inner, tuple) and inner and inner[0] == "call" and inner[1].endswith("Iterator::map") and len(inner[2]) == 2):
+        return False
+    clo = inner[2][1]
+    body = clo[2] if is_agg(clo) and clo[1] == "closure" else None
+    if not body or body not in ctx.facts.bodies:
+        return False
+    try:
+        outs = [o for o in ctx.px(body, inline=lambda c, d: False) if o.kind == "return"]
+    except Exception:
+        return False
+    return bool(outs) and all(_sum_of_lengths(o.value, const(0)) for o in outs)
 
 
 def P_lin_atom(t):
